@@ -212,14 +212,89 @@ pub fn strategy() -> BoxedStrategy<Case> {
     .boxed()
 }
 
+/// small scope: every ordered pair (and every pair followed by the first input again) of a fixed
+/// pool of inputs per format: all 31 item subsets of one task, unterminated openers, empty input
+pub fn small_scope() -> Vec<Case> {
+    use narsese::api::{GetBudget, GetPunctuation, GetStamp, GetTerm, GetTruth};
+    let mut out = vec![];
+    for fi in 0..3usize {
+        let f = fmts::e(fi);
+        let td = TD {
+            s: SD { term: D::node(Inh, vec![D::word("A"), D::atom(IVar, "1")]), punct: P::Judgement, stamp: St::Fixed(-5), truth: vec![F::of(1.0), F::of(0.9)] },
+            budget: vec![F::of(0.5)],
+        };
+        let task = build_task(&td);
+        let s = task.get_sentence();
+        let mut pool: Vec<(String, String)> = vec![("empty".into(), String::new())];
+        for mask in 1u8..32 {
+            let mut p = Printer::new(fi, Style::Plain, &[]);
+            if mask & 1 != 0 {
+                p.budget(task.get_budget());
+                p.gap(2);
+            }
+            if mask & 2 != 0 {
+                p.term(s.get_term());
+            }
+            if mask & 4 != 0 {
+                p.punct(s.get_punctuation());
+            }
+            if mask & 8 != 0 {
+                p.gap(2);
+                p.stamp(s.get_stamp());
+            }
+            if mask & 16 != 0 {
+                if let Some(tr) = s.get_truth() {
+                    p.gap(2);
+                    p.truth(tr);
+                }
+            }
+            let class = match (mask & 2 != 0, mask & 4 != 0, mask & 1 != 0) {
+                (true, true, true) => "task",
+                (true, true, false) => "sentence",
+                (true, false, false) if mask == 2 => "term",
+                _ => "fragment",
+            };
+            pool.push((class.to_string(), printer::render(fi, &p.out)));
+        }
+        for opener in strgen::openers(fi) {
+            pool.push(("malformed".into(), format!("{opener}A")));
+            pool.push(("malformed".into(), opener.repeat(40)));
+        }
+        pool.push(("malformed".into(), format!("{}{}", f.compound.brackets.0, f.compound.connecter_product)));
+        pool.push(("term".into(), "A".into()));
+        pool.push(("term".into(), format!("{}1", f.atom.prefix_variable_independent)));
+        for a in &pool {
+            for b in &pool {
+                out.push(Case { fi, inputs: vec![a.clone(), b.clone()] });
+            }
+        }
+        // triples x, y, x for a sample of y
+        for a in pool.iter().step_by(3) {
+            for b in pool.iter().step_by(2) {
+                out.push(Case { fi, inputs: vec![a.clone(), b.clone(), a.clone()] });
+            }
+        }
+    }
+    out
+}
+
 pub fn streams() -> Vec<Box<dyn AnyStream>> {
-    vec![Box::new(Stream::<Case> {
+    vec![
+        Box::new(Stream::<Case> {
+            name: "small-scope",
+            quick: 0,
+            thorough: 0,
+            source: Source::Enum(Box::new(|_| Box::new(small_scope().into_iter()))),
+            check: Box::new(check),
+        }),
+        Box::new(Stream::<Case> {
         name: "sequences",
         quick: 15_000,
         thorough: 1_000_000,
         source: Source::Gen(Box::new(strategy)),
         check: Box::new(check),
-    })]
+    }),
+    ]
 }
 
 pub const PROP: Prop = Prop {
